@@ -87,6 +87,39 @@ def interpolate (c r l : List Pt) (ℓ : List Rat) (s : Rat) : Res Interp :=
         | _, _, _, _, _, _ => .error .index
       | _, _ => .error .index
 
+/-! ### the caches behind `distance` / `inner_distance` (tied to the source by translation, CRProps/T20.lean) -/
+
+/-- `Lanelet.distance` (getter, :293-300) as a function of the cache `self._distance`: the value of the cache after the call,
+    which is also the returned array.  An existing cache is handed out as it is, an empty one is filled. -/
+def distanceGet (cache : Option (List Rat)) (ℓ : List Rat) : Option (List Rat) :=
+  match cache with
+  | some d => some d
+  | none => some (cumDist ℓ)
+
+/-- `Lanelet.inner_distance` (getter, :306-314) as a function of the cache `self._inner_distance`. -/
+def innerDistanceGet (cache : Option (List Rat)) (ℓl ℓr : List Rat) : Option (List Rat) :=
+  match cache with
+  | some d => some d
+  | none => some (cumDistMin ℓl ℓr)
+
+/-- The cache is usable for a centre line with segment lengths `ℓ`: empty, or holding exactly `cumDist ℓ`. -/
+def CacheOk (cache : Option (List Rat)) (ℓ : List Rat) : Prop := cache = none ∨ cache = some (cumDist ℓ)
+
+/-- Every method of `Lanelet` that assigns one of the vertex arrays (`self._center_vertices`, `_left_vertices`,
+    `_right_vertices`), and whether the same method afterwards resets the cumulative-distance cache that depends on the array
+    (`_distance` for the centre line, `_inner_distance` for the boundaries).  `translate_rotate` is a rigid motion: the
+    cumulative distances are invariant under it and it keeps the caches. -/
+def vertexWriters : List (String × String × Bool) := [
+  ("center_vertices.setter", "_center_vertices", true),
+  ("convert_to_2d", "_center_vertices", true),
+  ("convert_to_2d", "_left_vertices", true),
+  ("convert_to_2d", "_right_vertices", true),
+  ("left_vertices.setter", "_left_vertices", true),
+  ("right_vertices.setter", "_right_vertices", true),
+  ("translate_rotate", "_center_vertices", false),
+  ("translate_rotate", "_left_vertices", false),
+  ("translate_rotate", "_right_vertices", false)]
+
 /-! ### the side condition that ties the length parameters to the points -/
 
 /-- Squared Euclidean distance. -/
